@@ -214,6 +214,36 @@ def clause_lookback(prog, rep, scope):
                   "the outer-layer epoch fallback window does not depend on MdkConfig.max_past_epochs (constant lookback): with a larger "
                   "configured window, messages OpenMLS could still decrypt are lost at the wrapper layer", c.loc())
     rep.floor("lookback-from-config", "iterated past-epoch lookup", 1 if any_loop else 0, 1)
+    # ... and the configured window is a *lower* bound of the look-back: it may be raised to a default (`DEFAULT.max(cfg)`), never capped
+    # by a constant (`DEFAULT.min(cfg)`): a wrapper from further back than the cap is no longer unwrapped although OpenMLS could still
+    # process it, so a late competing commit never reaches the race decision
+    for c in sites:
+        a = c.args[-1]
+        og = A.origins(prog, c.fn, a["p"][0], scope=core) if "p" in a else None
+        if og is None or not og.has_call(lambda x: x.name in ("next", "into_iter", "rev")) or "max_past_epochs" not in og.fields:
+            continue
+        capped = []
+        for x in og.calls:
+            if x.name not in ("min", "clamp") or x.krate not in ("core", "std") or len(x.args) < 2:
+                continue
+            cfg_side, const_side = False, False
+            for arg in x.args:
+                if "c" in arg:
+                    const_side = True
+                    continue
+                if "p" not in arg:
+                    continue
+                o2 = A.origins(prog, x.fn, arg["p"][0], scope=core, max_frames=2)
+                if "max_past_epochs" in o2.fields:
+                    cfg_side = True
+                elif not o2.fields and not o2.params and not [y for y in o2.calls if y.name not in ("into", "from", "max", "min")]:
+                    const_side = True
+            if cfg_side and const_side:
+                capped.append("%s @%s" % (x.name, x.loc()))
+        rep.check(not capped, "lookback-from-config", "MDK::process_message/window-not-capped",
+                  "the configured max_past_epochs is not capped by a constant on its way to the look-back window",
+                  "the look-back window is the configured max_past_epochs capped by a constant (%s): wrappers older than the cap are not "
+                  "unwrapped although the MLS layer still holds their epoch" % "; ".join(sorted(set(capped))), c.loc())
     # window arithmetic: the epochs tried are exactly current-1 down to current-L (L = the lookback), i.e. L epochs
     n_constructs = 0
     for c in sites:
@@ -455,11 +485,18 @@ def run(ctx, rep):
     rep.clause("C02.2 own-echo transition table: Created/Retryable -> Processed, other states untouched")
     rep.clause("C02.3 the outer-layer epoch fallback window derives from MdkConfig.max_past_epochs; every MdkConfig field is read")
     rep.clause("C02.4 stored Message.epoch derives from ProcessedMessage::epoch()")
-    rep.clause("C02.5 rollback arm invalidates / marks retryable / notifies (decided under C01.3)")
+    rep.clause("C02.5 rollback arm invalidates / marks retryable / notifies (the clause C01.3 owns, also run here)")
     rep.clause("C02.6 the dedup step's blocking of Failed records must depend on more than the record state")
     rep.not_decided = "exactly-once under real interleavings, window arithmetic inside OpenMLS, relay echo timing"
     clause_store_both(prog, rep, scope)
     clause_echo_table(prog, rep, scope)
+    # C02.5: the rollback arm invalidates every message stored after the rollback *target* epoch — the clause C01 owns, run here too so
+    # that a change of the invalidation threshold is reported under the property whose last clause it breaks
+    import os
+    import sys
+    sys.path.insert(0, os.path.dirname(os.path.abspath(__file__)))
+    import c01
+    c01.clause_rollback_arm(prog, rep)
     clause_record_fields_rewritten(prog, rep, scope)
     clause_lookback(prog, rep, scope)
     clause_config_call_sites(prog, rep)
